@@ -98,10 +98,13 @@ def run_schedule(queries, order):
         return real(self)
     results = [None] * len(queries)
 
+    # every fourth schedule: the callers pass the (documented as unused) lexer argument, as luqum.parser.parse's signature allows
+    extra = {"lexer": P.lexer} if SCHEDULE_NO[0] % 4 == 1 else {}
+
     def work(i):
         sched.ident[threading.get_ident()] = i
         try:
-            results[i] = outcome(TH.parse, queries[i])
+            results[i] = outcome(lambda q: TH.parse(q, **extra), queries[i])
         finally:
             sched.finish()
     lex.Lexer.token = token
